@@ -235,6 +235,10 @@ func runCase(t *testing.T, tr *hx.Trace, id int, r *rand.Rand, script []string) 
 			}
 			return do1(line)
 		}
+		bulk := 0
+		if id%200 == 7 && w.NextTick(0) < 0 {
+			bulk = 1100 + r.IntN(900)
+		}
 		nops := 10 + r.IntN(20)
 		for range nops {
 			g.advance()
@@ -281,6 +285,11 @@ func runCase(t *testing.T, tr *hx.Trace, id int, r *rand.Rand, script []string) 
 					do("reload 0")
 				}
 			}
+		}
+		if bulk > 0 {
+			// last op of the case (it moves the clock by half a day): the version index after a burst (beyond 1024
+			// entries) and a GC that removes almost all of it
+			do1(fmt.Sprintf("bulkgc 0 %d", bulk))
 		}
 	})
 }
